@@ -79,6 +79,11 @@ BufferCases == [kind : {"buffer"}, c : {<<0, 0>>, <<3, -2>>}, r : {1, 2, 5}, n :
 Offs == {<<100000001, 100000001>>, <<-300000000, 200000000>>, <<1000000, -70000000>>}
 FarShapes == UNION {{[kind |-> "shape", base |-> sh, spelled |-> sp, off |-> o] : sp \in {x \in SpelledOf(sh) : TRUE}, o \in Offs} : sh \in BaseShapes}
 FarLines == {[kind |-> "line", path |-> p, q |-> q, off |-> o] : p \in LongPaths, q \in {<<10, 10>>, <<13, 16>>, <<30, 5>>}, o \in Offs}
-GenInit == c \in AreaCases \cup LineCases \cup NearCases \cup BufferCases \cup FarShapes \cup FarLines /\ PrintT(ToJson(c))
+(* the same shapes and paths at other magnitudes: the harness multiplies every coordinate by 2^sh (exact in binary floating
+   point) and divides the measures again (areas by 4^sh), so every expectation stays the one of the lattice shape *)
+Shifts == {-20, 24}
+ScaledShapes == UNION {{[kind |-> "shape", base |-> sh, spelled |-> sp, sh |-> k] : sp \in {x \in SpelledOf(sh) : TRUE}, k \in Shifts} : sh \in BaseShapes}
+ScaledLines == {[kind |-> "line", path |-> p, q |-> q, sh |-> k] : p \in LongPaths, q \in {<<10, 10>>, <<13, 16>>, <<30, 5>>}, k \in Shifts}
+GenInit == c \in AreaCases \cup LineCases \cup NearCases \cup BufferCases \cup FarShapes \cup FarLines \cup ScaledShapes \cup ScaledLines /\ PrintT(ToJson(c))
 GenSpec == GenInit /\ [][UNCHANGED c]_c
 =============================================================================
